@@ -217,7 +217,7 @@ C15Fails(c) ==
 -----------------------------------------------------------------------------
 Fails(c) == IF ~PreOK(c) THEN {"harness.pre"}
             ELSE IF c.kind = "c14" THEN C14Fails(c)
-            ELSE IF Claimed(LinesOfObs(c.pre), c.args.seg) THEN C15Fails(c) ELSE {"harness.unclaimed"}
+            ELSE C15Fails(c)
 
 Init == cid \in 1..Len(Cases)
 Next == FALSE /\ cid' = cid
